@@ -26,8 +26,8 @@ CLAIMED["C05"] = ("ovf-codec", "exploration",
   "Trusted: reference encoder and its unit table; RustCrypto AEADs. Trojan is out of scope (not an encrypted protocol).", "DESIGN.md 5/C05")
 
 CLAIMED["C06"] = ("ovf-codec", "exploration",
-  "negative property testing: generated non-credentialed inputs and key near-misses (built with an independent reference encoder) against the real server decoders; differential user-separation check with the reference decoder",
-  "Server decoders built from generated credentials and user tables are fed random bytes, reference-built valid handshakes under other / one-bit-different keys, other protocols' handshakes, handshakes truncated before the proof, identity-header and auth-id near-misses; no dial item (ConnectTcp / RelayUdp / decoded datagram) may come out. For every user of generated tables the reply must open under that user's key and under no other key. Exploration: a sampled negative space, not a cryptographic proof.",
+  "negative property testing: generated non-credentialed inputs and key near-misses (built with an independent reference encoder) against the real server decoders and against the running server process (scripted targets must never be contacted); differential user-separation check with the reference decoder, at codec level and between users of the running UDP server that share a client session id",
+  "Server decoders built from generated credentials and user tables are fed random bytes, reference-built valid handshakes under other / one-bit-different keys, other protocols' handshakes, handshakes truncated before the proof, identity-header and auth-id near-misses; no dial item (ConnectTcp / RelayUdp / decoded datagram) may come out. For every user of generated tables the reply must open under that user's key and under no other key. System half (real binaries): running-server - generated sequences of intruders (another credential of the same protocol, an unregistered user behind the right server key, the server key alone, random bytes, a valid handshake cut before the proof) talk to the running server over TCP and, for Shadowsocks, UDP; the scripted target each of them names must never be contacted, while a reference client that holds the credential is served before and after. shared-session-id - 2..4 registered users of a running Shadowsocks 2022 UDP server use the same client session id from their own sockets in a generated interleaving of bursts; every datagram that arrives at a user's socket must open under that user's key and answer a datagram that user sent, and every user must be served. Exploration: a sampled negative space, not a cryptographic proof.",
   "Trusted: reference encoder for building near-miss handshakes; AEAD/hash primitives.", "DESIGN.md 5/C06")
 
 CLAIMED["C07"] = ("ovf-codec", "exploration",
@@ -57,7 +57,7 @@ CLAIMED["C14"] = ("ovf-codec", "exploration",
 
 CLAIMED["C01"] = ("ovf-system", "exploration",
   "end-to-end property testing of the real client and server binaries over loopback: generated traffic scripts (proptest) against a byte-exact keystream oracle at a scripted application and a scripted target; every README (protocol, cipher, transport) combination in every run",
-  "For each case a fresh octo-squirrel-server and octo-squirrel-client (release build of /repo's working tree, hooks off) are started with a generated configuration (protocol, cipher, transport tcp/tls/ws/wss/quic, user table, worker threads). 1..6 (quick) / 1..24 (thorough) concurrent flows each complete a SOCKS5-IPv4 / SOCKS5-domain / HTTP CONNECT / absolute-URI HTTP handshake and run a generated script of application writes, target writes, pauses and syncs (1 byte .. 256 KiB quick, 4 MiB thorough, protocol edge sizes), optionally through a tap that re-cuts the client-server byte stream. Oracle: the flow's own target port is dialled exactly once; every byte received at either end equals the position-dependent keystream the other end wrote (checked on the fly), nothing extra; when the target answers and closes the application reads the whole answer and then end-of-stream; when the application closes the target reads everything and then end-of-stream; both processes alive without a panic. All 50 README combinations are exercised in every run (sub-check matrix), plus generated combinations. A second family, cold one-shot uploads (handshake, up to 1.5 MiB quick / 6 MiB thorough, immediate close(), optionally a slow target), runs on all 50 combinations too: the target must read exactly the uploaded bytes and then end-of-stream. Closing steps also come with a slow consumer (the receiving side does not read for up to 250 ms while the last bytes are written and the writer closes). Exploration of scripts and of the interleavings the machine produces.",
+  "For each case a fresh octo-squirrel-server and octo-squirrel-client (release build of /repo's working tree, hooks off) are started with a generated configuration (protocol, cipher, transport tcp/tls/ws/wss/quic, user table, worker threads). 1..6 (quick) / 1..24 (thorough) concurrent flows each complete a SOCKS5-IPv4 / SOCKS5-domain / HTTP CONNECT / absolute-URI HTTP handshake and run a generated script of application writes, target writes, pauses and syncs (1 byte .. 256 KiB quick, 4 MiB thorough, protocol edge sizes), optionally through a tap that re-cuts the client-server byte stream. Oracle: the flow's own target port is dialled exactly once; every byte received at either end equals the position-dependent keystream the other end wrote (checked on the fly), nothing extra; when the target answers and closes the application reads the whole answer and then end-of-stream; when the application closes the target reads everything and then end-of-stream; both processes alive without a panic. All 50 README combinations are exercised in every run (sub-check matrix), plus generated combinations. A second family, cold one-shot uploads (handshake, up to 1.5 MiB quick / 6 MiB thorough, immediate close(), optionally a slow target), runs on all 50 combinations too: the target must read exactly the uploaded bytes and then end-of-stream. Closing steps also come with a slow consumer (the receiving side does not read for up to 250 ms while the last bytes are written and the writer closes). late-reader: the target takes the request, answers 9..300 KB and closes while the application, with a 2 KiB receive buffer so that the answer waits in the client's socket, does not read for 3..14.5 s - longer than every timer of the relay (10 s grace after the first clean end, 2 s drain of the local socket); it must then still read the complete answer and end-of-stream (one combination per transport in the quick tier, all 50 in the thorough tier). Exploration of scripts and of the interleavings the machine produces.",
   "Trusted: the kernel's loopback TCP, the harness's reader threads and keystream. Deadline-decided failures (20 s) are re-run twice on fresh clusters before being reported; wrong bytes, extra dials and dead processes are reported at once.", "DESIGN.md 5/C01")
 
 CLAIMED["C02"] = ("ovf-system", "exploration",
